@@ -374,7 +374,7 @@ class OneShot(object):
                 return ['ok', U.jsonable(U.absval(v)), bytes(rest).hex()]
             if t['t'] == 'print':
                 v = self.ctx.values[t['v']]
-                out = [v.prettyPrint(), str(v)[:200], repr(v)[:200]]
+                out = [v.prettyPrint(), str(v)[:200], U.safe_repr(v, 200)]
                 if isinstance(v, (U.p.univ.SequenceOf, U.p.univ.SetOf)):
                     out.append(len([x for x in v]))
                 elif isinstance(v, (U.p.univ.Sequence, U.p.univ.Set)):
@@ -388,7 +388,7 @@ class OneShot(object):
                 py = nenc.encode(self.ctx.values[t['v']])
                 back = ndec.decode(py, asn1Spec=self.ctx.schema)
                 self.result_obj = back
-                return ['ok', repr(py)[:400], U.jsonable(U.absval(back))]
+                return ['ok', U.safe_repr(py, 400), U.jsonable(U.absval(back))]
         except Exception as e:
             return _outcome_exc(e)
         return ['skip', 'unknown']
@@ -504,7 +504,7 @@ def _deep_summary(obj):
             return ['deep', n, 'len=%d' % len(obj)]
         obj = obj.getComponentByPosition(0)
         n += 1
-    return ['deep', n, repr(obj)[:60]]
+    return ['deep', n, U.safe_repr(obj, 60)]
 
 
 def deep_bytes(depth, indef):
@@ -1023,6 +1023,14 @@ def _constructed_nodes(obj, out, depth=0):
                 _constructed_nodes(c, out, depth + 1)
 
 
+def _der_outcome(obj):
+    from pyasn1.codec.der import encoder
+    try:
+        return encoder.encode(obj).hex()
+    except Exception as e:
+        return 'raises:' + type(e).__name__
+
+
 def _aliasing_probe(ctx, tasks_run, snap_schema, snap_values):
     results = []
     for t in tasks_run:
@@ -1075,6 +1083,15 @@ def _aliasing_probe(ctx, tasks_run, snap_schema, snap_values):
         for i, v in enumerate(ctx.values):
             if U.snapshot(v) != snap_values[i]:
                 raise W.Violation('result-aliases-input', result=ai, value=i)
+        # a decoded collection that was emptied is an empty collection: it must encode (or be refused) exactly
+        # like an empty one built by hand -- a result must not carry hidden state from the call that made it
+        if isinstance(a, (U.p.univ.SequenceOf, U.p.univ.SetOf)) and type(a) is type(ctx.schema) and \
+                a.tagSet == ctx.schema.tagSet:
+            fresh = ctx.schema.clone()
+            fresh.clear()
+            if _der_outcome(a) != _der_outcome(fresh):
+                raise W.Violation('result-carries-hidden-state', result=ai, got=U.safe_repr(_der_outcome(a), 80),
+                                  want=U.safe_repr(_der_outcome(fresh), 80))
         for (bi, b), sb in zip(others, before):
             if U.snapshot(b) != sb:
                 raise W.Violation('results-alias-each-other', result=ai, other=bi)
